@@ -5,6 +5,7 @@ Mistral/Model/Join.lean, tied to the code by the `join` correspondence stream).
 -/
 import Mistral.Lemmas.Join
 import Mistral.Lemmas.EngineJoin
+import Mistral.Lemmas.EngineStart
 
 namespace Mistral.Props.C04
 open Mistral Mistral.Join
@@ -353,5 +354,70 @@ theorem join_created_once_reachable (sp : Spec) (evs : List Event) :
   apply hall
   intro n _
   simp [init, countL]
+
+open Mistral.Engine in
+/-- joins are never IDLE and never the subject of a re-run request, in every reachable state -/
+theorem join_inv_reachable (sp : Spec) (evs : List Event) : JoinInv sp (run sp evs) := by
+  unfold run
+  have hall : ∀ (evs : List Event) (w : World), JoinInv sp w → JoinInv sp (evs.foldl (step sp) w) := by
+    intro evs
+    induction evs with
+    | nil => intro w h; exact h
+    | cons e rest ih => intro w h; exact ih _ (step_ji sp w e h)
+  exact hall _ _ (init_ji sp)
+
+open Mistral.Engine in
+/-- C04, engine level, for every reachable state and every next event: an execution of a join that
+    is not RUNNING becomes RUNNING only through its own `_refresh_task_state` job, and only when
+    the join verdict computed on the task rows of that very moment is RUNNING — which by
+    `join_running_iff_count` / `join_running_iff_all` means that the required number of inbound
+    tasks have completed and routed to it.  No other event (a trigger from a branch, a `start_task`
+    RPC, resume, an action result, a completion check) starts a join. -/
+theorem join_starts_only_when_ready (sp : Spec) (evs : List Event) (ev : Event) (t : Tid) (k : JoinKind)
+    (hj : isJoin sp t.1 = some k)
+    (hnot : ∀ r ∈ (run sp evs).tasks, (r.name, r.occ) = t → r.state ≠ .RUNNING)
+    (r' : TaskRow) (hr' : r' ∈ (step sp (run sp evs) ev).tasks) (hid : (r'.name, r'.occ) = t)
+    (hs : r'.state = .RUNNING) :
+    ev = .deliver (.jobRefresh t) ∧
+    ∃ L, joinLogicalState sp.graph (rowsOf (run sp evs)) (fuelFor sp) t.1 k = some L ∧ L.state = .RUNNING := by
+  have hinv := join_inv_reachable sp evs
+  generalize run sp evs = w at *
+  have h : RunningWithin (fun t' => ∃ r ∈ w.tasks, (r.name, r.occ) = t' ∧ r.state = .RUNNING) w.tasks :=
+    fun r hr hs => ⟨r, hr, rfl, hs⟩
+  have := step_running sp w ev _ h r' hr' hs
+  rw [hid] at this
+  rcases this with ⟨r, hr, hrid, hrs⟩ | ⟨f, r, hev, hp, hfind, hidle⟩ | ⟨hev, k', L, hk', hL, hLs⟩
+  · exact absurd hrs (hnot r hr hrid)
+  · exfalso
+    cases f with
+    | false =>
+      have := hinv.2 _ hp rfl t false (Or.inr rfl)
+      rw [hj] at this; cases this
+    | true =>
+      have hmem := findTask_mem _ _ _ hfind
+      have hrid := findTask_id _ _ _ hfind
+      have hn : r.name = t.1 := by rw [← hrid]
+      exact hinv.1 r hmem (by rw [hn, hj]; rfl) (hidle rfl)
+  · rw [hj] at hk'
+    cases hk'
+    exact ⟨hev, L, hL, hLs⟩
+
+/-- non-vacuity of `join_starts_only_when_ready`: two start tasks routing to a `join: all`; after
+    both completed, the refresh job starts the join (and before that it is WAITING) -/
+def g2 : Graph := { tasks := [⟨"a", none, ["j"], [], [], []⟩, ⟨"b", none, ["j"], [], [], []⟩,
+                              ⟨"j", some .all, [], [], [], []⟩], defaults := none }
+def sp2 : Engine.Spec := { graph := g2, live := [⟨"a", ["j"], [], []⟩, ⟨"b", ["j"], [], []⟩, ⟨"j", [], [], []⟩] }
+open Mistral.Engine in
+def evs2 : List Event := [.start,
+  .deliver (.postStartTask ("a", 0) true), .deliver (.rpcStartTask ("a", 0) true),
+  .deliver (.postRunAction ("a", 0)), .execute ("a", 0) true, .deliver (.rpcResult ("a", 0) true),
+  .deliver (.postStartTask ("b", 0) true), .deliver (.rpcStartTask ("b", 0) true),
+  .deliver (.postRunAction ("b", 0)), .execute ("b", 0) true, .deliver (.rpcResult ("b", 0) true),
+  .deliver (.postSchedRefresh ("j", 0))]
+open Mistral.Engine in
+example : ((run sp2 evs2).tasks.map fun r => (r.name, r.occ, r.state)) =
+    [("a", 0, .SUCCESS), ("b", 0, .SUCCESS), ("j", 0, .WAITING)] ∧
+    ((step sp2 (run sp2 evs2) (.deliver (.jobRefresh ("j", 0)))).tasks.map fun r => (r.name, r.occ, r.state)) =
+    [("a", 0, .SUCCESS), ("b", 0, .SUCCESS), ("j", 0, .RUNNING)] := by decide
 
 end Mistral.Props.C04
